@@ -11,12 +11,16 @@ from . import tworun as T
 
 ID = "C08"
 ENCODED = BS.ENCODED_BS
-STUBS = BS.STUBS_BS + ["scipy.special.expit is only reached with agg_model_hard_threshold=False (concrete-draw cases)"]
+STUBS = BS.STUBS_BS + ["scipy.special.expit (soft cases, symbolic argument z = T*margin): a fresh real e per distinct argument term, constrained by "
+                       "0 < e < 1, sign link (z > 0 <-> e > 1/2, z = 0 <-> e = 1/2), monotonicity / equality against every other expit argument of the "
+                       "path, and a sound piecewise-linear envelope (chords below / tangents above on z >= 0, mirrored for z < 0, breakpoints "
+                       "0, .5, 1, 2, 3, 4, 6, 8); concrete arguments use the real expit; candidates are replayed with the real expit"]
 ASSUMES = BS.ASSUMES_BS + ["contest weights and base are concrete (three weightings incl. fractional weights and a negative base)"]
 OUTSIDE = ["more than 2 contests with symbolic draws (the draw-by-draw sign comparisons fork 2^(contests*2B) ways)",
-           "soft threshold (sigmoid) with symbolic draws", "B above 2"]
+           "soft threshold: values of the sigmoid beyond the envelope stub (only the ordering clause is claimed there, as in the statement); temperatures "
+           "other than T = 5 and 5000 in the soft cases", "B above 2"]
 BOUNDS = {"quick": "2 contests, B = 2 draws, levels {0.5, 0.9}, symbolic margin draws for one contest at a time (the other contest has concrete draws); hard threshold, correlation on/off; "
-                   "called / stop-listed subsets; history clause: every list and order of aggregates computed before the summary over "
+                   "called / stop-listed subsets; soft threshold (sigmoid, T = 5 and the default 5000; correlation on/off; no calls / lhs call / stop list) with the ordering clause; history clause: every list and order of aggregates computed before the summary over "
                    "{postal_code, county_fips, county_classification} must give the same summary as the contests alone; several summary requests with different weights after one run; wrong-size dictionary",
           "thorough": "adds one case (correlation off) with both contests' draws symbolic at once and history cases for the other contest"}
 OPTS = {"quick": dict(case_timeout_s=900, solver_timeout_ms=30000, max_paths=200000),
@@ -56,10 +60,89 @@ def cases(tier):
             out.append(dict(name="history_row1_%s" % "+".join(a.split("_")[-1][:5] for a in o), kind="history", order=o, B=2, alphas=[0.9],
                             units=units, symbolic_rows=[1], weight=20))
     for corr in (True, False):
+        for T_ in (5, 5000):
+            for calls in ({}, {"lhs": ["AA"]}, {"stop": ["AA"]}):
+                if T_ == 5000 and calls:
+                    continue
+                for row in (0, 1):
+                    if row and (calls or tier == "quick" and T_ == 5000):
+                        continue
+                    out.append(dict(name="soft_%s_T%d_%s_row%d" % ("corr" if corr else "nocorr", T_,
+                                                                   "_".join("%s%s" % (k, "".join(v)) for k, v in calls.items()) or "nocalls", row),
+                                    kind="summary", soft=True, T=T_, corr=corr, calls=calls, B=2, alphas=[0.5, 0.9], units=units,
+                                    weights=[11, 16], base=100, aggregates=["postal_code", "unit"], weight=40, symbolic_rows=[row]))
+    for corr in (True, False):
         out.append(dict(name="repeated_requests_%s" % ("corr" if corr else "nocorr"), kind="repeat", corr=corr, B=2, alphas=[0.9],
                         units=units, aggregates=["postal_code", "unit"], symbolic_rows=[0], weight=25))
     out.append(dict(name="wrong_size_dict", kind="wrong", B=2, alphas=[0.9], units=units, aggregates=["postal_code", "unit"], weight=5))
     return out
+
+
+class ExpitStub:
+    """scipy.special.expit as imported by BootstrapElectionModel, for object arrays with symbolic cells (see STUBS)."""
+    BREAKS = (0.0, 0.5, 1.0, 2.0, 3.0, 4.0, 6.0, 8.0)
+
+    def __init__(self, ctx):
+        self.ctx, self.seen, self.n = ctx, {}, 0
+
+    def install(self):
+        import elexmodel.models.BootstrapElectionModel as M
+        self.M, self.orig = M, M.expit
+        if not getattr(self.ctx, "concrete", False):
+            M.expit = self.expit
+        return self
+
+    def uninstall(self):
+        self.M.expit = self.orig
+
+    def expit(self, arr):
+        a = np.asarray(arr)
+        if a.dtype != object:
+            return self.orig(arr)
+        out = np.empty(a.shape, dtype=object)
+        for idx in np.ndindex(*a.shape):
+            out[idx] = self.one(a[idx])
+        return out
+
+    def one(self, x):
+        import fractions
+        import math
+        import z3
+        x = Sym.lift(x)
+        if not isinstance(x, Sym):
+            return float(self.orig(x))
+        z = z3.simplify(x.t)
+        key = z.sexpr()
+        if key in self.seen:
+            return Sym(self.seen[key][1])
+        if sym._is_const(z):
+            zf = float(fractions.Fraction(z.as_fraction())) if z3.is_rational_value(z) else float(z.approx(20).as_fraction())
+            e = sym.RV(float(self.orig(zf)))
+        else:
+            self.n += 1
+            e = self.ctx.real("expit%d" % self.n).t
+            c, R = self.ctx, z3.RealVal
+            half = R("1/2")
+            # (non-strict: in binary64 the sigmoid saturates at 0 / 1 and equals 1/2 for tiny arguments)
+            c.assume_t(z3.And(e >= 0, e <= 1, z3.Implies(z >= 0, e >= half), z3.Implies(z <= 0, e <= half)))
+            f = lambda v: 1.0 / (1.0 + math.exp(-v))  # noqa: E731
+            down = lambda v: sym.RV(fractions.Fraction(math.floor(v * 10 ** 9), 10 ** 9))  # noqa: E731
+            up = lambda v: sym.RV(fractions.Fraction(math.ceil(v * 10 ** 9), 10 ** 9))  # noqa: E731
+            B = self.BREAKS
+            for zz, ee in ((z, e), (-z, 1 - e)):  # expit(-z) = 1 - expit(z)
+                cons = [ee <= half + zz / 4]
+                for b0, b1 in zip(B, B[1:]):
+                    slope = (f(b1) - f(b0)) / (b1 - b0)
+                    cons.append(z3.Implies(z3.And(zz >= R(str(b0)), zz <= R(str(b1))), ee >= down(f(b0) - 1e-9) + down(slope) * (zz - R(str(b0)))))
+                cons.append(z3.Implies(zz >= R(str(B[-1])), ee >= down(f(B[-1]) - 1e-9)))
+                for b in B[1:]:
+                    cons.append(ee <= up(f(b) + 1e-9) + up(f(b) * (1 - f(b))) * (zz - R(str(b))) + z3.If(zz < R(str(b)), R("1/1000000"), R(0)))
+                c.assume_t(z3.Implies(zz >= 0, z3.And(*cons)))
+        for k, (z2, e2) in self.seen.items():
+            self.ctx.assume_t(z3.And(z3.Implies(z < z2, e <= e2), z3.Implies(z > z2, e >= e2), z3.Implies(z == z2, e == e2))
+                              if not (sym._is_const(z) and sym._is_const(z2)) else z3.BoolVal(True))
+        self.seen[key] = (z, e)
+        return Sym(e)
 
 
 def summary_of(ctx, case, r, weights, base, alphas):
@@ -77,6 +160,7 @@ def run(ctx, case):
     base = case.get("base", 100)
     sc = BS.build_bs(ctx, case)
     boot = BS.BootStub(ctx, case["B"], symbolic_rows=case.get("symbolic_rows")).install()
+    soft = ExpitStub(ctx).install() if case.get("soft") else None
     try:
         if case["kind"] == "wrong":
             r = BS.run_bs_client(ctx, case, sc=sc, boot=boot)
@@ -123,10 +207,23 @@ def run(ctx, case):
         calls = case["calls"]
         c = dict(case, lhs_called_contests=calls.get("lhs", []), rhs_called_contests=calls.get("rhs", []),
                  stop_model_call=calls.get("stop", []), model_parameters={"national_summary_correlation": case["corr"]})
+        if soft:
+            c["model_parameters"].update(agg_model_hard_threshold=False, T=case["T"])
         r = BS.run_bs_client(ctx, c, sc=sc, boot=boot)
         df = summary_of(ctx, case, r, w, base, case["alphas"])
     finally:
         boot.uninstall()
+        if soft:
+            soft.uninstall()
+    if soft:
+        # the statement claims only the ordering for the sigmoid mode; no outputs for the shadow comparison (the stub's value of
+        # the sigmoid is not the float value)
+        pred = df["agg_pred"].iloc[0]
+        obl = [("the sigmoid was reached with a symbolic argument", soft.n > 0)]
+        for a in case["alphas"]:
+            lo, hi = df["lower_%s" % a].iloc[0], df["upper_%s" % a].iloc[0]
+            obl.append(("soft threshold: lower <= prediction <= upper at %s" % a, AND(LE(lo, pred), LE(pred, hi))))
+        return obl, {}
     st = r.res["state_data"].set_index("postal_code")
     total = P.csum(w.values())
     pred = df["agg_pred"].iloc[0]
